@@ -13,6 +13,7 @@ ORACLES = {'layout': ['roundtrip'], 'entries': ['roundtrip'], 'label-form': ['ro
            'number-width': ['number-width'],
            'label-injective': ['label-injective'],
            'refuses-non-lp': ['refuses-non-lp'],
+           'islp-value': ['refuses-non-lp'],
            'reader-semantics': ['ranges', 'bounds']}
 
 
@@ -98,6 +99,25 @@ def run(report, tier, seed):
     except ImportError:
         report.not_decided.append(
             'the constraints the reader builds from RANGES and BOUNDS')
+    # op._islp, which tofile's first statement relies on
+    try:
+        from contracts.py import relational_spec
+        rep = relational_spec.islp_obligations(to)
+        if rep.get('status') == 'ok':
+            if 'modeling.py:op._islp' not in report.functions:
+                report.functions.append('modeling.py:op._islp')
+            for o in rep['obligations']:
+                report.add(Ob('modeling.py:op._islp:%s' % o['site'],
+                              o['kind'], o['status'], o['text'],
+                              'modeling.py line %s' % o['line'],
+                              by=o.get('by') or [], model=o.get('model'),
+                              meta={'line': o['line']}))
+        else:
+            report.add(Ob('modeling.py:op._islp:supported', 'engine',
+                          'undecided', 'op._islp is inside the supported '
+                          'subset', 'modeling.py', detail=rep.get('reason')))
+    except KeyError as e:
+        report.error('function under contract no longer exists: %s' % e)
     report.replayer = make_replayer()
     from engine.checks import py_common
     py_common.demote_unconfirmed_shape_checks(
